@@ -379,6 +379,7 @@ func C14(r *vf.Run) {
 				// half of the runs end at an address the program really reaches (possibly the start), some
 				// with callbacks that act on the CPU and with an interrupt already requested at entry
 				var plan []hookPlan
+				var visited []uint32
 				pendingAtEntry := 0
 				if g.Bool() {
 					md := img.Clone()
@@ -391,6 +392,7 @@ func C14(r *vf.Run) {
 							break
 						}
 					}
+					visited = pcs
 					target = pcs[[]int{0, len(pcs) - 1, g.Intn(len(pcs)), g.Intn(len(pcs))}[g.Intn(4)]]
 					if g.Intn(3) == 0 {
 						for h := 1 + g.Intn(3); h > 0; h-- {
@@ -482,6 +484,28 @@ func C14(r *vf.Run) {
 					kind = "reserver"
 				}
 				installHooks(&A.s.CPU, plan, pendingAtEntry, int(budget)+64)
+				// the host may detach (or swap) the Logger from inside a callback, in the middle of a run: the
+				// trace ends there (or goes elsewhere), the execution does not care
+				loggerDetached := false
+				if len(visited) > 0 && g.Intn(5) == 0 {
+					at := visited[g.Intn(len(visited))]
+					if A.s.CPU.OnPC == nil {
+						A.s.CPU.OnPC = map[uint32]func(){}
+					}
+					prev := A.s.CPU.OnPC[at]
+					swap := g.Intn(3) == 0
+					A.s.CPU.OnPC[at] = func() {
+						if swap {
+							A.s.Logger = &countWriter{}
+						} else {
+							A.s.Logger = nil
+						}
+						if prev != nil {
+							prev()
+						}
+					}
+					loggerDetached = true
+				}
 				ma.Limit = (int(budget) + 64) * 24
 				panA := vf.Try(func() {
 					for _, b := range budgets {
@@ -520,6 +544,10 @@ func C14(r *vf.Run) {
 				}
 				if A.s.CPU.Interrupt != B.s.CPU.Interrupt {
 					r.Fail("logger-perturbs-execution", fmt.Sprintf("with Logger (%s) the interrupt request state on exit is %d, without it %d", kind, A.s.CPU.Interrupt, B.s.CPU.Interrupt), det())
+					continue
+				}
+				if loggerDetached {
+					w.cells["twin:logger-detached-by-a-callback"]++
 					continue
 				}
 				if len(cw.lines) != len(pres) {
